@@ -181,6 +181,7 @@ def judge_real(rep, stats, row, src, texts, r, ptext):
     mid = r[1]
     base["inner"] = mid.get("val", mid.get("msg"))
     y = qval(r[2])
+    base["obs"] = r[2].get("val", r[2])
     if y is None:
         rep.violation(dict(base, kind="evaluation-failed", detail=r[2]), known_matcher)
         return "violation"
@@ -221,7 +222,7 @@ def limbs_us(t):
 
 
 def judge_instant(rep, stats, row, src, t, texts, r):
-    base = {"row": row["id"], "pair": row["pair"], "source": src, "t": t, "expr": texts[2]}
+    base = {"row": row["id"], "pair": row["pair"], "source": src, "t": t, "expr": texts[2], "obs": r[2].get("val", r[2])}
     us = limbs_us(t)
     if row["arg"] == "instant":
         x = dtval(r[0])
@@ -464,7 +465,7 @@ def g_phase(rep, sc, tier, stats):
             expected = [float(p) for p in c["parts"][:-1]] + [c["parts"][-1] / scale]
             o = results[(bi, k)]
             obs = observed_parts(o.get("val")) if o.get("outcome") == "ok" else None
-            base = {"chain": c["chain"], "expr": expr_of((c, fn)), "spec_parts": expected, "source": "G"}
+            base = {"chain": c["chain"], "expr": expr_of((c, fn)), "spec_parts": expected, "source": "G", "obs": o.get("val", o)}
             if obs is None:
                 rep.violation(dict(base, kind="evaluation-failed", detail=o), known_matcher)
                 kinds["evaluation-failed"] = kinds.get("evaluation-failed", 0) + 1
@@ -645,7 +646,7 @@ def j_unit_lists(rep, sc, meta, tier, seed):
         rep.add("j_unit_lists", 1)
         rep.add("distinct_nontrivial", 1)
         obs = observed_parts(o.get("val"))
-        base = {"expr": expr, "source": "J-units", "units": [u for u, _ in pick], "shuffled_list": shuffled}
+        base = {"expr": expr, "source": "J-units", "units": [u for u, _ in pick], "shuffled_list": shuffled, "obs": o.get("val", o)}
         if obs is None:
             rep.violation(dict(base, kind="unit_list-shape", detail=o), known_matcher)
             continue
@@ -693,7 +694,8 @@ def j_trace(rep, sc, meta, tier, seed):
                   [e["sign"] * (d[len(ch["units"]) - 1] + (d[-1] / scale if e["m"] else 0.0))]
             kind, detail = classify_split(ch["units"], sizes, total, obs, exp)
             if kind:
-                v = dict(kind=kind, chain=e["chain"], expr=e["code"], impl_parts=[x for x, _ in obs], spec_parts=exp, source="J-trace", **detail)
+                v = dict(kind=kind, chain=e["chain"], expr=e["code"], impl_parts=[x for x, _ in obs], spec_parts=exp, source="J-trace",
+                         obs={"k": "list", "items": [{"k": "q", "u": x["u"], "v": x["v"]} for x in e["raw"]]}, **detail)
                 if not rep.violation(v, known_matcher):
                     explained += 1      # carries the signature of a known finding: not given to TLC again
                     continue
@@ -819,24 +821,23 @@ def run(tier, seed):
 
 
 def replay(path, seed):
-    """re-evaluate the recorded failing expressions on the current tree and print what they give now"""
+    """re-evaluate the recorded failing expressions on the current tree: exit 1 iff one of them still gives the
+    recorded observation (the violation reproduces), 0 if all of them changed"""
     data = json.load(open(path))
     nv.build_harness([BIN])
     sc = nv.scratch("c23_replay")
-    vs = [v for v in data["violations"] if v.get("expr")]
+    vs = [v for v in data["violations"] if v.get("expr") and "obs" in v]
+    other = [v for v in data["violations"] if not (v.get("expr") and "obs" in v)]
     outs = evaluate(sc, "replay", [{"id": i, "steps": [v["expr"]]} for i, v in enumerate(vs)])
     still = 0
-    for v, r in zip(vs[:20], outs):
-        print(json.dumps({"kind": v["kind"], "expr": v["expr"], "recorded": v.get("got", v.get("impl_parts")), "now": r[0].get("val", r[0])})[:1500])
-    for v, r in zip(vs, outs):
+    for i, (v, r) in enumerate(zip(vs, outs)):
         now = r[0].get("val", r[0])
-        rec = v.get("got", v.get("impl_parts"))
-        if v["kind"].startswith("unit_list") and observed_parts(now) and [x for x, _ in observed_parts(now)] == rec:
-            still += 1
-        elif v["kind"].startswith("round-trip") and qval(r[0]) and repr(qval(r[0])[0]) == rec:
-            still += 1
-        elif not v["kind"].startswith(("unit_list", "round-trip")):
-            still += 1
+        same = now == v["obs"]
+        still += same
+        if i < 20:
+            print(json.dumps({"kind": v["kind"], "expr": v["expr"], "recorded": v["obs"], "now": now, "reproduces": same}, ensure_ascii=False)[:1500])
+    for v in other[:5]:
+        print(json.dumps(v, ensure_ascii=False)[:1500])
     shutil.rmtree(sc, ignore_errors=True)
-    print("%d of %d recorded violations reproduce identically" % (still, len(vs)))
-    return 1 if still or (data["violations"] and not vs) else 0
+    print("%d of %d recorded violations reproduce identically (%d without an expression to re-run)" % (still, len(vs), len(other)))
+    return 1 if still or other else 0
